@@ -76,7 +76,7 @@ cdef class TupleRowParser(RowParser):
             coldesc = desc.coldescs[i]
             uses_ce = ce_policy and ce_policy.contains_column(coldesc)
             try:
-                if uses_ce:
+                if uses_ce and buf.size >= 0:
                     col_type = ce_policy.column_type(coldesc)
                     decrypted_bytes = ce_policy.decrypt(coldesc, to_bytes(&buf))
                     PyBytes_AsStringAndSize(decrypted_bytes, &newbuf.ptr, &newbuf.size)
